@@ -38,6 +38,10 @@ type Oblig struct {
 	Output string
 	FailedPart int
 	CexVals    map[string]string
+	TopFn      *ssa.Function
+	Search     bool // refutation-only obligation ("refute"): unknown is a bounded pass, never counted as proved
+	StrIDs     map[string]string
+	Replay     *replayResult
 }
 
 type Exec struct {
@@ -101,7 +105,7 @@ type Ret struct {
 func (x *Exec) addObl(name, kind, text string, props []string, part OblPart, advisory bool) {
 	o, ok := x.obls[name]
 	if !ok {
-		o = &Oblig{Name: name, Kind: kind, Text: text, Props: props, Ctx: x.c, Advisory: advisory, Func: x.top.String()}
+		o = &Oblig{Name: name, Kind: kind, Text: text, Props: props, Ctx: x.c, Advisory: advisory, Func: x.top.String(), TopFn: x.top}
 		x.obls[name] = o
 		x.order = append(x.order, name)
 	}
